@@ -29,7 +29,7 @@ def run_property(rep, prop, tier, rng, judge, rule, nspecs=None, opts=None, tag=
     kinds, outcomes, st = {}, {}, {}
     nrel = nprog = ntie = 0
     first_tie = None
-    hyp = {h: 0 for h in ("supported", "plansok", "sizeexact", "finite", "outputok", "elemssure")}
+    hyp = {h: 0 for h in ("supported", "plansok", "sizeexact", "finite", "outputok", "elemssure", "acyclic", "paramsok", "labelstyped", "variantsdistinct", "implfits")}
     uncovered, not_compiled, samples, heavy_skipped = [], [], [], []
     for ci, res in enumerate(t2.campaign_chunks(tier, rep.seed, nspecs=nspecs, opts=opts, tag=tag)):
         for c in res["cases"]:
@@ -67,7 +67,7 @@ def run_property(rep, prop, tier, rng, judge, rule, nspecs=None, opts=None, tag=
             # whose decoders were exercised: the plan-level ones must hold for everything rustc compiled
             for h in hyp:
                 hyp[h] += s.get("flags", {}).get(h) == "true"
-            if s["status"] == "ok" and not all(s.get("flags", {}).get(h) == "true" for h in ("supported", "plansok", "sizeexact", "finite", "outputok", "elemssure")):
+            if s["status"] == "ok" and not all(s.get("flags", {}).get(h) == "true" for h in ("supported", "plansok", "sizeexact", "finite", "outputok", "elemssure", "paramsok", "labelstyped", "variantsdistinct", "implfits")):
                 uncovered.append(s)
             if s["status"] != "ok":
                 not_compiled.append({"chunk": ci, "k": k, "status": s["status"]})
@@ -87,7 +87,7 @@ def run_property(rep, prop, tier, rng, judge, rule, nspecs=None, opts=None, tag=
     rep.cov["theorem_hypotheses_hold_on"] = dict(hyp, of=nprog)
     if uncovered and nviol == 0 and not ntie:
         rep.violation({"kind": "theorem-hypothesis-fails", "what": "a specification of the supported subset compiled, but a decidable hypothesis of the specification- and plan-level theorems "
-                       "(Supported / Plans.Ok / Plans.SizeExact' / Plans.finite / outputOk) is false for it", "spec": uncovered[0]["text"],
+                       "(Supported / Plans.Ok / Plans.SizeExact' / Plans.finite / outputOk / paramsOk / labelsTyped / variantsDistinct / implFits) is false for it", "spec": uncovered[0]["text"],
                        "flags": uncovered[0].get("flags"), "count": len(uncovered)}, found_input=False)
     if ntie and nviol == 0:
         first_tie["differences"] = ntie
